@@ -7,7 +7,16 @@ Inductive c08case :=
 | CParse (s : bytes) (obs : option Z)
 | CEncode (remaining : Z) (obs : bytes)
 | CPick (hdrs : list (bytes * bytes)) (obs : option Z)
-| CE2E (timeout transit : Z) (obs : option Z).   (* handler's remaining time at invocation *)
+| CE2E (timeout transit : Z) (obs : option Z)   (* handler's remaining time at invocation *)
+(* a whole RPC through a real client and a real server on the virtual clock:
+   kind (false unary / true streaming), caller clock t0 when the call is made,
+   server clock t1 when the request is dispatched, caller metadata as emitted,
+   caller's remaining time at t0 (None = no deadline); observed: the handler's
+   remaining time (ctx.Deadline() - t1) *)
+| CSys (stream : bool) (t0 t1 : Z) (md : list (bytes * bytes)) (remaining : option Z) (obs : option Z)
+(* a request whose header list was put on the wire by a scripted peer, served by
+   a real server: the handler's remaining time at invocation *)
+| CSrv (stream : bool) (hdrs : list (bytes * bytes)) (obs : option Z).
 
 Definition optZ_eqb (a b : option Z) : bool :=
   match a, b with
@@ -86,6 +95,28 @@ Definition check (c : c08case) : list nat :=
   | CE2E timeout transit obs =>
       (if optZ_eqb (parse (encode timeout)) obs then [] else [1%nat]) ++
       (if spec_transfer_ok timeout transit obs then [] else [2%nat])
+  | CSys stream t0 t1 md remaining obs =>
+      let k := if stream then KStream else KUnary in
+      let dl := match remaining with Some r => Some (t0 + r) | None => None end in
+      (if optZ_eqb (sys_deadline k t0 t1 md dl) (match obs with Some rem => Some (t1 + rem) | None => None end)
+       then [] else [1%nat]) ++
+      (* the property, when the caller's metadata does not use the reserved key *)
+      (if existsb (fun kv => bytes_eqb (lower (fst kv)) timeout_key) md then []
+       else match remaining with
+            | Some r => if spec_transfer_ok r (t1 - t0) obs then [] else [2%nat]
+            | None => match obs with None => [] | Some _ => [2%nat] end
+            end)
+  | CSrv stream hdrs obs =>
+      (if optZ_eqb (server_deadline 0 hdrs) obs then [] else [1%nat]) ++
+      (match obs with
+       | Some d =>
+           (* never misread: the duration is the saturated natural value of a grpc-timeout header *)
+           if existsb (fun kv => bytes_eqb (lower (fst kv)) timeout_key
+                                 && match natural_value (snd kv) with Some n => Z.eqb n d | None => false end) hdrs
+           then [] else [2%nat]
+       | None => if existsb (fun kv => bytes_eqb (lower (fst kv)) timeout_key && in_grammar (snd kv)) hdrs
+                 then [2%nat] else []
+       end)
   end.
 
 Fixpoint find_bad_from (i : nat) (cs : list c08case) : list (nat * list nat) :=
